@@ -6,7 +6,9 @@ the number `pos`; loops that advance `pos` by a data-dependent amount carry a fu
 initialised with the input length (every iteration consumes at least one byte).  Word loads
 (`u64::from_le_bytes`, `from_ne_bytes` on this little-endian host) are `leWord`.  The word tests
 themselves (`word & H8`, the zero-byte newline mask, `word & HI`) are *generated* from the source
-(`Generated/C13.lean`).
+(`Generated/C13.lean`); the per-word line increment of `line_and_column` is generated too
+(`Gen.utf8_line_inc`) and proved equal to the `popc` used here (`Props/C13.line_increment_generated_eq`),
+so that the driver still builds - and the failing-input search still runs - when that statement changes.
 
   * `validateScalar`  — `validate_utf8_scalar` incl. `skip_ascii`, `err_at`, `line_and_column`
   * `bwAccepts`       — `broadword::accepts` (`load_block`, `load_word`, `first_high_byte`, `validate_sequence`)
